@@ -2246,7 +2246,7 @@ func runSrvJob(job *ltsJob) *ltsRes {
 			add("no-handler-after", "owner-alive-at-return", fmt.Sprintf("%d connection goroutines (handleConn) alive when Shutdown returned", obs.OwnersAtRet))
 		}
 		if obs.RWAtRet != 0 {
-			add("goroutines-end", "rw-alive-at-return", fmt.Sprintf("%d per-connection goroutines (readloop / writeloop) still alive at the moment Shutdown returned: handleConn calls wg.Done after stream.Close, which does not wait for them", obs.RWAtRet))
+			add("goroutines-end", "rw-alive-at-return", fmt.Sprintf("%d per-connection goroutines (readloop / writeloop) still alive at the moment Shutdown returned (conn.Close has to wait for them before handleConn calls wg.Done)", obs.RWAtRet))
 		}
 		if w.late.Load() {
 			add("no-handler-after", "started-after-return", "a connect hook or a handler started after Shutdown had returned")
